@@ -240,7 +240,7 @@ def nak_unpack_arbitrary_short(data):
 # branch_timeout_ms: the feasibility double-check of two-sided branches by the full solver mostly runs into its time limit on these
 # paths (sequence constraints of the refined buffer); a shorter limit only lets more (possibly infeasible) paths through
 NAK_ARB = dict(bounded="declared data field too short for the scope fields", verifies=[NAK + "NakPdu.unpack"], max_paths=4000,
-               branch_timeout_ms=300)
+               branch_timeout_ms=120)
 
 
 @obligation(["C06", "C09", "C10", "C04"], "NakPdu.unpack/arbitrary-short-idw1", **NAK_ARB)
@@ -478,7 +478,7 @@ def fin_rt_clauses(pdu, raw, suffix, conf, cc, dc, fs, fw, fv, items):
         ensures("rt-repack", g.pack() == raw)
 
 
-@obligation(["C06", "C09", "C04"], "FinishedPdu/roundtrip-scalar", verifies=[FIN + "FinishedPdu.unpack", FIN + "FinishedPdu._unpack_tlvs",
+@obligation(["C06", "C09", "C04"], "FinishedPdu/roundtrip-scalar", max_paths=4000, branch_timeout_ms=120, verifies=[FIN + "FinishedPdu.unpack", FIN + "FinishedPdu._unpack_tlvs",
                                                                              FIN + "FinishedPdu.__eq__"])
 def finished_roundtrip_scalar(mode: EnumOf(TransmissionMode), crc: EnumOf(CrcFlag), large: EnumOf(LargeFileFlag),
                               segctrl: EnumOf(SegmentationControl), we: W, ws: W, src: Int, seq: Int, dst: Int,
@@ -531,7 +531,7 @@ def fin_rt_list(mode, crc, large, src, seq, dst, tail, fv, items, suffix):
     fin_rt_clauses(pdu, raw, suffix, conf, cc, dc, fs, fw, fv, items)
 
 
-@obligation(["C06", "C09", "C04"], "FinishedPdu/roundtrip-list1", bounded="list length <= 1, file names and filestore message <= 80 octets each",
+@obligation(["C06", "C09", "C04"], "FinishedPdu/roundtrip-list1", max_paths=4000, branch_timeout_ms=120, bounded="list length <= 1, file names and filestore message <= 80 octets each",
             verifies=[FIN + "FinishedPdu.unpack", FIN + "FinishedPdu._unpack_tlvs", FIN + "FinishedPdu.__eq__"])
 def finished_roundtrip_list1(mode: EnumOf(TransmissionMode), crc: EnumOf(CrcFlag), large: EnumOf(LargeFileFlag), src: Int, seq: Int, dst: Int,
                              tail: FIN_TAIL, fv: Int, items: ListOf(FS_ITEM, 1), suffix: Bytes):
@@ -540,7 +540,7 @@ def finished_roundtrip_list1(mode: EnumOf(TransmissionMode), crc: EnumOf(CrcFlag
     fin_rt_list(mode, crc, large, src, seq, dst, tail, fv, items, suffix)
 
 
-@obligation(["C06", "C09", "C04"], "FinishedPdu/roundtrip-list2",
+@obligation(["C06", "C09", "C04"], "FinishedPdu/roundtrip-list2", max_paths=4000, branch_timeout_ms=120,
             bounded="list length == 2, file names and filestore message <= 80 octets each, second item: one non-empty name, non-empty message; fault location present",
             verifies=[FIN + "FinishedPdu.unpack", FIN + "FinishedPdu._unpack_tlvs", FIN + "FinishedPdu.__eq__"])
 def finished_roundtrip_list2(mode: EnumOf(TransmissionMode), crc: EnumOf(CrcFlag), large: EnumOf(LargeFileFlag), src: Int, seq: Int, dst: Int,
@@ -589,7 +589,7 @@ def finished_unpack_arbitrary_short(data):
     finished_arbitrary_clauses(data)
 
 
-FIN_ARB = dict(bounded="declared data field too short for the parameter octet", verifies=[FIN + "FinishedPdu.unpack"], max_paths=4000, branch_timeout_ms=300)
+FIN_ARB = dict(bounded="declared data field too short for the parameter octet", verifies=[FIN + "FinishedPdu.unpack"], max_paths=4000, branch_timeout_ms=120)
 
 
 @obligation(["C06", "C09", "C10", "C04"], "FinishedPdu.unpack/arbitrary-short-idw1", **FIN_ARB)
@@ -619,7 +619,7 @@ def finished_unpack_arbitrary_8(data: Bytes):
 @obligation(["C06", "C09", "C10", "C04"], "FinishedPdu.unpack/arbitrary-tlvs",
             bounded="valid fixed header with 2-octet entity IDs and 1-octet sequence number; declared TLV area <= 6 octets; "
                     "no filestore-response TLVs (see no_filestore_response_tlv)",
-            verifies=[FIN + "FinishedPdu.unpack", FIN + "FinishedPdu._unpack_tlvs"], max_paths=4000, branch_timeout_ms=300)
+            verifies=[FIN + "FinishedPdu.unpack", FIN + "FinishedPdu._unpack_tlvs"], max_paths=4000, branch_timeout_ms=120)
 def finished_unpack_arbitrary_tlvs(direction: EnumOf(Direction), mode: EnumOf(TransmissionMode), crc: EnumOf(CrcFlag),
                                    large: EnumOf(LargeFileFlag), src: Int, seq: Int, dst: Int, area: IntRange(0, 6), rest: Bytes):
     """a well-formed fixed header (any flags; arbitrary headers are the subject of C05 and of arbitrary-short-*) that declares a TLV
@@ -879,7 +879,7 @@ def md_rt_clauses(pdu, raw, suffix, conf, closure, cksum, size, sname, dname, it
 
 
 @obligation(["C06", "C09", "C04"], "MetadataPdu/roundtrip-scalar", verifies=[MD + "MetadataPdu.unpack", MD + "MetadataPdu.__eq__"],
-            max_paths=4000, branch_timeout_ms=300)
+            max_paths=4000, branch_timeout_ms=120)
 def metadata_roundtrip_scalar(mode: EnumOf(TransmissionMode), crc: EnumOf(CrcFlag), large: EnumOf(LargeFileFlag),
                               segctrl: EnumOf(SegmentationControl), we: W, ws: W, src: Int, seq: Int, dst: Int,
                               closure: Bool, cksum: EnumOf(ChecksumType), size: Int, sname: NAME, dname: NAME, suffix: Bytes):
@@ -894,7 +894,7 @@ def metadata_roundtrip_scalar(mode: EnumOf(TransmissionMode), crc: EnumOf(CrcFla
 
 
 @obligation(["C06", "C09", "C04"], "MetadataPdu/roundtrip-names", verifies=[MD + "MetadataPdu.unpack", MD + "MetadataPdu.__eq__"],
-            max_paths=4000, branch_timeout_ms=300)
+            max_paths=4000, branch_timeout_ms=120)
 def metadata_roundtrip_names(mode: EnumOf(TransmissionMode), crc: EnumOf(CrcFlag), large: EnumOf(LargeFileFlag), src: Int, seq: Int, dst: Int,
                              closure: Bool, cksum: EnumOf(ChecksumType), size: Int, sname: OptionalOf(NAME), dname: OptionalOf(NAME),
                              no_options: Choice(None, ()), suffix: Bytes):
@@ -914,7 +914,7 @@ def metadata_roundtrip_names(mode: EnumOf(TransmissionMode), crc: EnumOf(CrcFlag
 
 @obligation(["C06", "C09", "C04"], "MetadataPdu/roundtrip-list", bounded=OPT_BOUND, verifies=[MD + "MetadataPdu.unpack", MD + "MetadataPdu._parse_options",
                                                                                              MD + "MetadataPdu.__eq__"],
-            max_paths=4000, branch_timeout_ms=300)
+            max_paths=4000, branch_timeout_ms=120)
 def metadata_roundtrip_list(mode: EnumOf(TransmissionMode), crc: EnumOf(CrcFlag), large: EnumOf(LargeFileFlag), src: Int, seq: Int, dst: Int,
                             closure: Bool, cksum: EnumOf(ChecksumType), size: Int, sname: NAME, dname: NAME, items: OPTIONS, suffix: Bytes):
     """options of any type and value (one width pair; a bytes buffer - the list-free harnesses decode bytearrays)"""
@@ -954,7 +954,7 @@ def metadata_unpack_arbitrary_short(data):
 
 
 MD_ARB = dict(bounded="declared data field shorter than the smallest Metadata PDU", verifies=[MD + "MetadataPdu.unpack"], max_paths=4000,
-              branch_timeout_ms=300)
+              branch_timeout_ms=120)
 
 
 @obligation(["C06", "C09", "C10", "C04"], "MetadataPdu.unpack/arbitrary-short-idw1", **MD_ARB)
@@ -983,7 +983,7 @@ def metadata_unpack_arbitrary_8(data: Bytes):
 
 @obligation(["C06", "C09", "C10", "C04"], "MetadataPdu.unpack/arbitrary-params",
             bounded="valid fixed header with 1-octet entity IDs and 2-octet sequence number; declared area behind the file size <= 6 octets",
-            verifies=[MD + "MetadataPdu.unpack", MD + "MetadataPdu._parse_options"], max_paths=4000, branch_timeout_ms=300)
+            verifies=[MD + "MetadataPdu.unpack", MD + "MetadataPdu._parse_options"], max_paths=4000, branch_timeout_ms=120)
 def metadata_unpack_arbitrary_params(direction: EnumOf(Direction), mode: EnumOf(TransmissionMode), crc: EnumOf(CrcFlag),
                                      large: EnumOf(LargeFileFlag), src: Int, seq: Int, dst: Int, area: IntRange(0, 6), rest: Bytes):
     """a well-formed fixed header (any flags; arbitrary headers: C05 and arbitrary-short-*) that declares 0..6 octets (0, 1: too short) behind the
